@@ -3,6 +3,17 @@
 import glob, json, os, re
 ROOT = os.path.dirname(os.path.dirname(os.path.abspath(__file__)))
 NOTES = {
+ "C03-m12": "rejected but not attributed to C03 at first (it only hangs under a nested `shutdown_timeout=None` with a handler that never returns, which is outside the letter of C03's hypothesis) -> `late_shutdown_bounds` family; a hang outside the hypothesis is a symptom of C03 when TLC finds no stuck state of the specification on that very scenario",
+ "C04-m11": "rejected but attributed to C14 only at first -> `windowed_critical_abort` family",
+ "C04-m12": "rejected but attributed to C11 only at first -> `verdict-cancelled-without-cancellation`: CancelledError out of a run nobody cancelled",
+ "C06-m11": "missed at first (two exception classes) -> job exceptions that are also InvalidStateError / KeyError / TimeoutError",
+ "C06-m12": "NOT reported: needs a job that re-raises an exception object which has travelled through the suspended frame of another, still running job; no family shares exception objects between jobs",
+ "C07-m12": "missed at first (window sizes were plain ints) -> `enumwin`: members of an IntEnum",
+ "C09-m11": "rejected but attributed to C04 / C11 only at first -> `-leaving-forever-jobs` suffix of the failing clause",
+ "C11-m12": "exit 2 at first (a handler cancelled twice logs `shut-recancel`, which the trace specification did not know) -> event bound; handlers that end by raising (`sraise`)",
+ "C12-m12": "missed at first (the coroutine object of a run was always created when the tree was complete) -> `earlycoro`: created before the members are added / before the requirements are declared",
+ "C19-m12": "thin at first (one program) -> `seq_then_edit` programs",
+ "C20-m11": "missed at first (no tree had more than ten ids) -> trees of up to 14 nodes",
  "C01-m9": "rejected but not attributed to C01 at first (too few verbose runs with message-less exceptions in nested schedulers that have successors) -> verbose runs in the families of C01, C10, C12, C13",
  "C01-m10": "missed at first (every `Job` was given a coroutine object) -> `awtjobs`: `Job(<awaitable that is not a coroutine object>)`",
  "C03-m9": "rejected but attributed to C14 only at first (awaitable results were already settled) -> `awaitable=2`: results that are pending awaitables",
@@ -12,7 +23,7 @@ NOTES = {
  "C09-m10": "thin at first -> an unfinished requirement that is a forever job is attributed to C09 too",
  "C10-m9": "thin at first (one metamorphic pair) -> `nested_failure_ties` family; `-by-nested` suffix of the failing clause when the critical failure came out of a critical nested scheduler",
  "C10-m10": "rejected but attributed to C11 only at first -> the early end of a cancelled nested run is attributed to C10 too (the nested scheduler is over for its parent before its own run is)",
- "C11-m9": "NOT reported: needs a job whose own body ends in CancelledError without having been cancelled by its scheduler (it awaits a helper task that a sibling cancels); the specification models bodies that return, raise or are cancelled by their scheduler, and every family excludes self-cancelling jobs",
+ "C11-m9": "not reported at first (no body ended in CancelledError on its own) -> `selfc`: a new outcome of a body in the specification, the model families and the scenarios",
  "C13-m10": "exit 2 at first (the exception came out of the shutdown() issued before the run and crashed the recorder) -> a shutdown() that raises, hangs or takes time is a recorded event (`late-exc`)",
  "C15-m10": "rejected but attributed to C19 / C17 only at first -> an edit call that records something else than what was declared is attributed to C15 too (cycle detection is about the declared graph)",
  "C18-m9": "missed at first (milestones were always lists) -> `keep_only_between` given one-shot iterables",
